@@ -45,6 +45,8 @@ static pixman_format_code_t pick_format (vf_rng *r, int role, unsigned profile)
 /* ------------------------------------------------------------------ transforms / filters */
 static pixman_fixed_t frand (vf_rng *r, double lo, double hi) { return (pixman_fixed_t)((lo + (hi - lo) * vf_unit (r)) * 65536.0); }
 
+/* rotations about a point that is not on the pixel grid: translations with fractions 1/4, 1/2 (a sample exactly between two pixels), 3/4 */
+#define ROT_FRACTION(t, r) do { if (vf_chance (r, 1, 2)) { (t)->matrix[0][2] += (pixman_fixed_t)(vf_next (r) % 4) * 0x4000; (t)->matrix[1][2] += (pixman_fixed_t)(vf_next (r) % 4) * 0x4000; } } while (0)
 void rq_gen_transform (vf_rng *r, rq_image *im, int cls, unsigned profile)
 {
     pixman_transform_t *t = &im->tr;
@@ -74,11 +76,11 @@ void rq_gen_transform (vf_rng *r, rq_image *im, int cls, unsigned profile)
         if (vf_chance (r, 1, 2)) { t->matrix[0][2] = (t->matrix[0][2] & ~0xffff) | (vf_next (r) % 4) * 0x4000; t->matrix[1][2] = (t->matrix[1][2] & ~0xffff) | (vf_next (r) % 4) * 0x4000; }
         break; }
     case TR_ROT90: t->matrix[0][0] = 0; t->matrix[0][1] = -65536; t->matrix[1][0] = 65536; t->matrix[1][1] = 0;
-        t->matrix[0][2] = (pixman_fixed_t)(vf_range (r, 2, 14) * 65536); t->matrix[1][2] = (pixman_fixed_t)(vf_range (r, -3, 3) * 65536); break;
+        t->matrix[0][2] = (pixman_fixed_t)(vf_range (r, 2, 14) * 65536); t->matrix[1][2] = (pixman_fixed_t)(vf_range (r, -3, 3) * 65536); ROT_FRACTION (t, r); break;
     case TR_ROT180: t->matrix[0][0] = -65536; t->matrix[1][1] = -65536;
-        t->matrix[0][2] = (pixman_fixed_t)(vf_range (r, 4, 40) * 65536); t->matrix[1][2] = (pixman_fixed_t)(vf_range (r, 1, 8) * 65536); break;
+        t->matrix[0][2] = (pixman_fixed_t)(vf_range (r, 4, 40) * 65536); t->matrix[1][2] = (pixman_fixed_t)(vf_range (r, 1, 8) * 65536); ROT_FRACTION (t, r); break;
     case TR_ROT270: t->matrix[0][0] = 0; t->matrix[0][1] = 65536; t->matrix[1][0] = -65536; t->matrix[1][1] = 0;
-        t->matrix[0][2] = (pixman_fixed_t)(vf_range (r, -3, 3) * 65536); t->matrix[1][2] = (pixman_fixed_t)(vf_range (r, 4, 40) * 65536); break;
+        t->matrix[0][2] = (pixman_fixed_t)(vf_range (r, -3, 3) * 65536); t->matrix[1][2] = (pixman_fixed_t)(vf_range (r, 4, 40) * 65536); ROT_FRACTION (t, r); break;
     case TR_AFFINE:
         t->matrix[0][0] = frand (r, -2, 2); t->matrix[0][1] = frand (r, -1.5, 1.5); t->matrix[1][0] = frand (r, -1.5, 1.5); t->matrix[1][1] = frand (r, -2, 2);
         t->matrix[0][2] = frand (r, -8, 16); t->matrix[1][2] = frand (r, -8, 16);
@@ -389,6 +391,14 @@ int rq_build (rq_request *q, vf_rng *r)
         if (!q->mask.img) { rq_free (q); return 0; }
         pixman_image_set_repeat (q->mask.img, q->src.repeat);
         q->mx = q->sx; q->my = q->sy;
+        /* the two views need not be used at the same offsets (then it is an ordinary source/mask pair, not the "pixbuf" special case);
+         * offsets that coincide across the axes are included on purpose */
+        switch (vf_next (r) % 6) {
+        case 0: if (q->sx >= 0 && q->sx + q->h <= q->src.h) q->sy = q->sx; q->mx = q->sx; q->my = q->sy + (q->sy + q->h < q->src.h ? 1 : q->sy > 0 ? -1 : 0); break;
+        case 1: q->mx = q->sy; q->my = q->sx; break;
+        case 2: q->mx = q->sx + (q->sx + q->w < q->src.w ? 1 : 0); break;
+        default: break;
+        }
         return 1;
     }
     if (q->has_mask && !build_image (&q->mask, r, 1)) { rq_free (q); return 0; }
